@@ -195,3 +195,13 @@ package load
 //@   requires opts != nil
 //@   ensures opts.cpuThreshold == threshold
 //@   modifies opts.cpuThreshold
+//@ func WithBuckets closure 0
+//@   property C02
+//@   requires opts != nil
+//@   ensures opts.buckets == buckets
+//@   modifies opts.buckets
+//@ func WithWindow closure 0
+//@   property C02
+//@   requires opts != nil
+//@   ensures opts.window == window
+//@   modifies opts.window
